@@ -47,6 +47,8 @@ func solverCmd(name string, timeoutMs int) (string, []string) {
 	return "z3", []string{"-in", fmt.Sprintf("-t:%d", timeoutMs)}
 }
 
+var absHeavyDiv bool
+
 var allowInit = func(path string) bool {
 	if strings.HasPrefix(path, "github.com/protolambda/zrnt/eth2/configs") {
 		return false
@@ -78,15 +80,17 @@ func main() {
 	merge := flag.Bool("merge", true, "state merging")
 	mergeCap := flag.Int("merge-cap", 3000, "step cap of a merge region")
 	out := flag.String("out", "", "result json path (default stdout)")
-	solver := flag.String("solver", "z3", "obligation solver: z3, z3-new, cvc5")
+	solver := flag.String("solver", "z3-new", "obligation solver: z3 (4.8.12), z3-new (5.1.0), cvc5")
 	fastT := flag.Int("fast-timeout", 3000, "feasibility query timeout ms")
 	strongT := flag.Int("timeout", 60000, "obligation query timeout ms")
 	trace := flag.Bool("trace", false, "record call traces")
+	absDiv := flag.Bool("abs-heavy-div", false, "replace x/c, x%c (wide x, large non-power-of-two c) by uninterpreted functions in solver queries")
 	prefixStr := flag.String("prefix", "", "forced values of the first Choose calls (sharding), comma separated")
 	symPtrs := flag.Bool("symptr", true, "guarded loads/stores through symbolically indexed pointers instead of forking")
 	record := flag.Bool("record", false, "record heap accesses with held locks (C17)")
 	flag.Parse()
 
+	absHeavyDiv = *absDiv
 	params := map[string]int{}
 	for _, kv := range strings.Split(*paramStr, ",") {
 		if kv == "" {
@@ -192,6 +196,7 @@ func runHarness(prog *ssa.Program, pkg *ssa.Package, f *ssa.Function, params map
 	fast.Incremental = os.Getenv("VERIF_NOINCR") == ""
 	sb, sa := solverCmd(solver, strongT)
 	strong := NewSolver(sb, sa...)
+	fast.AbsHeavyDiv, strong.AbsHeavyDiv = absHeavyDiv, absHeavyDiv
 	if solver == "cvc5" {
 		strong.send("(set-logic ALL)")
 	}
